@@ -237,6 +237,60 @@ fn exec(ctx: &mut Ctx, arena: &Arena, st: &Arena, spec: &Spec) {
                 }
             }
         }
+        // iterator protocol on fitting tags: clones, collected items used later, adapters, exhaustion
+        if must_work {
+            let want: Vec<Fields> = (0..spec.n as usize).map(|k| decode(sec, k * spec.entsize as usize, spec.entsize)).filter(|f| class(f.typ).is_some()).collect();
+            let r = ctx.call("protocol", || {
+                let mut problems: Vec<String> = vec![];
+                let grab = |s: &multiboot2::ElfSection| (s.section_type_raw(), s.flags().bits(), s.start_address(), s.size(), s.addralign());
+                let wantv: Vec<(u32, u64, u64, u64, u64)> = want.iter().map(|f| (f.typ, f.flags & 7, f.addr, f.size, f.align)).collect();
+                // (1) items collected first, decoded afterwards
+                let all: Vec<multiboot2::ElfSection> = tag.sections().collect();
+                let got: Vec<_> = all.iter().map(grab).collect();
+                if got != wantv {
+                    problems.push(format!("collected sections decode to {:x?}, reference {:x?}", got, wantv));
+                }
+                // (2) a clone taken after k items continues with the same suffix; the original is not disturbed
+                for k in 0..=wantv.len().min(3) {
+                    let mut a = tag.sections();
+                    for _ in 0..k {
+                        a.next();
+                    }
+                    let b = a.clone();
+                    let _ = format!("{:?}", a);
+                    let ra: Vec<_> = a.map(|s| grab(&s)).collect();
+                    let rb: Vec<_> = b.map(|s| grab(&s)).collect();
+                    if ra != wantv[k.min(wantv.len())..] || rb != ra {
+                        problems.push(format!("after {} items: original continues with {} items, clone with {}, reference {}", k, ra.len(), rb.len(), wantv.len() - k.min(wantv.len())));
+                    }
+                }
+                // (3) adapters a type may override
+                for k in 0..=wantv.len() + 1 {
+                    let g = tag.sections().nth(k).map(|s| grab(&s));
+                    if g != wantv.get(k).copied() {
+                        problems.push(format!("nth({}) = {:x?}, reference {:x?}", k, g, wantv.get(k)));
+                    }
+                }
+                if tag.sections().count() != wantv.len() {
+                    problems.push(format!("count() = {}, reference {}", tag.sections().count(), wantv.len()));
+                }
+                if tag.sections().last().map(|s| grab(&s)) != wantv.last().copied() {
+                    problems.push("last() differs from the last yielded item".to_string());
+                }
+                // (4) exhausted stays exhausted
+                let mut e = tag.sections();
+                while e.next().is_some() {}
+                if e.next().is_some() || e.next().is_some() {
+                    problems.push("next() after None yields an item".to_string());
+                }
+                problems
+            });
+            match r {
+                Out::Val(p) if p.is_empty() => ctx.class("elf:protocol-ok"),
+                Out::Val(p) => ctx.violation("c19/protocol", || format!("{} ({:?})", p.join("; "), spec)),
+                Out::Panic => ctx.violation("c19/spurious-panic/protocol", || format!("an iterator adapter panicked on a fitting tag: {:?}", spec)),
+            }
+        }
         let r = ctx.call("Debug(tag)", || format!("{:?}", tag).len());
         if r.is_panic() && must_work {
             ctx.violation("c19/spurious-panic/debug-tag", || format!("Debug of the tag panicked on a fitting tag: {:?}", spec));
